@@ -146,6 +146,20 @@ impl<'g> Sampler<'g> {
             Expr::Str(s) => out.push_str(s),
             Expr::Insens(s) => {
                 for c in s.chars() {
+                    // compatibility characters whose case mapping lands on this letter but whose UTF-8 width differs
+                    // (KELVIN SIGN, OHM SIGN, ANGSTROM SIGN): ASCII-only folding must not accept them
+                    let compat = match c {
+                        'k' | 'K' => Some('\u{212a}'),
+                        'Ω' | 'ω' => Some('\u{2126}'),
+                        'å' | 'Å' => Some('\u{212b}'),
+                        _ => None,
+                    };
+                    if let Some(x) = compat {
+                        if rng.chance(1, 5) {
+                            out.push(x);
+                            continue;
+                        }
+                    }
                     if !c.is_ascii() && rng.chance(1, 3) {
                         // Unicode case variants must NOT match (folding is documented as ASCII only)
                         let v: Vec<char> = if rng.chance(1, 2) { c.to_uppercase().collect() } else { c.to_lowercase().collect() };
